@@ -606,9 +606,6 @@ def val_close(iv, mv):
         if iv[0] == 5:       # readDecimal hands back the int of an octal / hexadecimal / character constant
             return Fraction(iv[1]) == Fraction(mv[1][0], mv[1][1])
         return iv[0] == 6 and close(ffloat(iv[1]), Fraction(mv[1][0], mv[1][1]))
-    if k == 10:
-        t = ''.join(chr(c) for c in iv[1]) if iv[0] == 4 else ''
-        return t.startswith('<') and t.endswith('>') and ' at 0x' in t
     if k == 7:
         return iv[0] == 7 and num_close(iv[1], model_num('glue', mv[1]))
     if k == 8:
@@ -1341,11 +1338,12 @@ def mk_value(rng, a, in_group_delims=None):
                 vals.append([5, n])
             else:
                 r = rng.random()
-                if r < 0.25 and not in_group_delims and a.get('subtype') != 'str':
+                if r < 0.25 and not in_group_delims:
                     inner = text_tokens(rng) + chs(d) + text_tokens(rng)
                     it = text_tokens(rng, 0, 2) + chs('{') + inner + chs('}')
                     items.append(it)
-                    vals.append([2, wtoks(it)])
+                    # untyped items stay token lists; an item cast to str is its source text (7145f1b)
+                    vals.append([4, S(''.join(chr(t[2]) for t in it))] if a.get('subtype') == 'str' else [2, wtoks(it)])
                 else:
                     w = text_tokens(rng)
                     it = (chs(' ') if rng.random() < 0.3 else []) + w
@@ -1604,8 +1602,25 @@ def streams(rng, tier, boost):
         flat = ''.join(chr(t[2]) for t in w1 + w2 + w3)
         full = ''.join(chr(t[2]) for t in body)
         a = dict(name='v', spec=None, type='str', delim=None, subtype=None, expanded=1)
-        out.append(('extended', dict(kind='arg', arg=a, toks=chs('{') + body + chs('}') + fo, nt=True, key='C05:cast:str-of-group',
-                                     tags=['str-of-group'], expect=dict(value=['alt', [4, S(flat)], [4, S(full)]], rest=fo))))
+        # a string argument with a group inside is bound to the text written (7145f1b); nested groups, blanks around
+        if rng.random() < 0.5:
+            body = w1 + chs('{') + w2 + chs('{') + text_tokens(rng, 0, 2) + chs('}}') + w3
+        if rng.random() < 0.3:
+            body = chs(' ') + body + chs(' ')
+        full = ''.join(chr(t[2]) for t in body)
+        out.append(('strings', dict(kind='arg', arg=a, toks=chs('{') + body + chs('}') + fo, nt=True,
+                                    tags=['str-with-group'], expect=dict(value=['alt', [4, S(full)], [4, S(full.strip())]], rest=fo))))
+        # ... and with a control word inside: \name and the blank that ends it (as \detokenize prints it)
+        body = w1 + [list(RELAX)] + w3
+        txt = ''.join(chr(t[2]) for t in w1) + '\\relax ' + ''.join(chr(t[2]) for t in w3)
+        out.append(('strings', dict(kind='arg', arg=a, toks=chs('{') + body + chs('}') + fo, nt=True,
+                                    tags=['str-with-control-word'], expect=dict(value=['alt', [4, S(txt)], [4, S(txt.strip())]], rest=fo))))
+        # residue (known finding): after a control SYMBOL the source text also gets a blank that was not written
+        sym = rng.choice('&%#_$')
+        body = w1 + [['cs', 'inert', sym, 0]] + w2
+        txt = ''.join(chr(t[2]) for t in w1) + '\\' + sym + ''.join(chr(t[2]) for t in w2)
+        out.append(('extended', dict(kind='arg', arg=a, toks=chs('{') + body + chs('}') + fo, nt=True, key='C05:cast:str-symbol-blank',
+                                     tags=['str-with-control-symbol'], expect=dict(value=[4, S(txt)], rest=fo))))
     # 6. signatures: every args string of the code base, generated signatures
     for s in repo_signatures():
         out.append(('signatures-repo', dict(kind='sig', sig=s, nt=len(s) > 6, tags=['repo'])))
@@ -1623,6 +1638,22 @@ def streams(rng, tier, boost):
             out.append(('calls', c))
     for _ in range((200 if quick else 1500) * boost):
         out.append(('calls', escape_call_case(rng)))
+    # 7b. single typed arguments read through the cast path ({..} or [..]), followed by text that must survive: the literal ends
+    #     right at the closing delimiter (no blank), incl. integer-looking float literals
+    for _ in range((300 if quick else 3000) * boost):
+        ty = rng.choice(['float', 'float', 'int', 'dimen', 'number', 'length', 'str', 'list', 'dict'])
+        spec = rng.choice([None, None, '[]', '()'])
+        a = dict(name='v', spec=spec, type=ty, delim=None, subtype=None, expanded=1)
+        if ty == 'float' and rng.random() < 0.5:
+            st, sign = sign_run(rng, 2)
+            n = rng.choice([0, 2, 4, 7, 12, 100])
+            body, val = st + chs(str(n)), [6, [sign * n, 1]]
+        else:
+            body, val = mk_value(rng, a, in_group_delims=tuple(spec) if spec else None)
+        o, c = (spec[0], spec[1]) if spec else ('{', '}')
+        fo = rng.choice([chs('rest'), chs(' rest'), chs('x'), [list(RELAX)] + chs('y'), chs('{z}'), []])
+        out.append(('typed-casts', dict(kind='arg', arg=a, toks=chs(o) + body + chs(c) + fo, nt=True,
+                                        tags=['cast:' + ty, 'spec:' + str(spec)], expect=dict(value=val, rest=fo))))
     # 8. enable level: typed arguments from several start levels, incl. type any / Tok / XTok / Args at end of input
     for _ in range((400 if quick else 3000) * boost):
         ty = rng.choice(['any', 'any', 'Tok', 'XTok', 'Args', 'Number', 'Dimen', 'Glue', 'MuDimen', 'MuGlue', 'str', None, 'cs', 'int', 'list'])
